@@ -459,9 +459,10 @@ pub fn gen_c10(args: &Args) {
         };
         let mut site = site;
         site.gmt = natural_gmt(site.lon);
-        p.nl = match r.range(0, 3) {
+        p.nl = match r.range(0, 5) {
             0 => 485_000,
             1 => -485_000,
+            2 => *r_pick(&mut r, &[0i64, 0, 1, -1, 600_000, -600_000, 100_000]),   // the Equator is a latitude like any other
             _ => r.range(-600_000, 600_000),
         };
         p.rnd = 0;
@@ -607,7 +608,7 @@ pub fn gen_c12(args: &Args) {
     let n = args.num("n", 12000);
     let mut r = Rng::new(seed ^ 0xC12);
     let mut w = TraceWriter::create(&args.str("out", "c12.ndjson"));
-    let kinds = ["off", "off", "iint", "fint", "imint", "school", "fang", "iang", "weather", "defw", "xfajr", "ipol"];
+    let kinds = ["off", "off", "iint", "fint", "imint", "school", "fang", "iang", "weather", "defw", "defw", "defw", "defw", "xfajr", "ipol"];
     for i in 0..n {
         let kind = kinds[(i as usize) % kinds.len()];
         let (site, date) = if kind == "xfajr" || kind == "ipol" || r.chance(1, 5) {
@@ -620,7 +621,7 @@ pub fn gen_c12(args: &Args) {
             custom_angles(&mut r, &mut p);
         }
         p.pol = 0;
-        p.rnd = if kind == "school" || kind == "fang" || kind == "iang" || kind == "weather" || kind == "defw" {
+        p.rnd = if kind == "school" || kind == "fang" || kind == "iang" || kind == "weather" {
             r.range(0, 3) as usize
         } else {
             0
@@ -633,7 +634,11 @@ pub fn gen_c12(args: &Args) {
             "off" => {
                 key = r.range(1, 7) as usize;
                 d = r.range(-90, 90) * 60;
-                if r.chance(1, 4) {
+                if r.chance(1, 3) {
+                    p.imi = r.range(1, 60) * 60;     // an offset and an Imsaak interval together
+                    q = p.clone();
+                }
+                if r.chance(1, 2) {
                     for k in 0..7 {
                         p.off[k] = r.range(-90, 90) * 60;
                     }
@@ -651,6 +656,12 @@ pub fn gen_c12(args: &Args) {
             }
             "imint" => {
                 d = r.range(1, 120) * 60;
+                if r.chance(1, 2) {
+                    for k in 0..7 {
+                        p.off[k] = r.range(-90, 90) * 60;
+                    }
+                    q = p.clone();
+                }
                 q.imi = d;
             }
             "school" => {
